@@ -326,6 +326,7 @@ def run(R):
             got2 = outcome_of(lambda: precomputed_io.get_IO_for_new_dataset(info2, reopen_same(), overwrite_info=ow))
             R.count("reinit:" + ("overwrite" if ow else "no-overwrite") + ":" + got2[0])
             if got2[0] == "ok":
+                written_before = set(last)
                 if ow:
                     last.clear()
                 pio_b = got2[1]
@@ -336,7 +337,7 @@ def run(R):
                 # (an overwriting initialisation with another encoding may change the stored form of a chunk,
                 #  plain <-> .gz; a chunk of the OLD dataset at this position is then a leftover of another
                 #  dataset generation, which C03 does not speak about: only positions never written before)
-                fresh_pos = (sc2["key"], c2) not in last
+                fresh_pos = (sc2["key"], c2) not in written_before
                 w2 = outcome_of(lambda: pio_b.write_chunk(a2, sc2["key"], c2)) if fresh_pos else ["skipped"]
                 if w2[0] == "ok":
                     last.pop((sc2["key"], c2), None)
